@@ -13,7 +13,7 @@ ASSUMPTIONS = ['entries are finite reals in [0, 10^6] (ints and floats alike); e
 BOUNDS = {'quick': 'all shapes r,c <= 3 with real entries (exhaustive over paths), with the Hungarian invariants monitored after every step; every 4x4 matrix over {0,1}; inductive steps 1 (n<=4) and 6 (n<=3) from arbitrary states; solver reuse: a concrete first solve followed by a symbolic 2x3/3x2 solve',
           'thorough': 'r,c <= 3 plus 3x4, 4x3, 2x4, 4x2, 2x5, 5x2, 4x4 (path budget per shape; exhaustive flag per harness)'}
 OUTSIDE = ['IEEE rounding of reduced costs', 'entries > sys.maxsize', 'DISALLOWED entries', 'shapes beyond the bounds']
-DEADLINE = {'quick': 150, 'thorough': 2400}
+DEADLINE = {'quick': 600, 'thorough': 2400}
 FUNCS = ['mitxgraders.helpers.munkres.Munkres.compute', 'Munkres.pad_matrix', 'Munkres.__step1..__step6', 'Munkres.__find_smallest',
          'Munkres.__find_a_zero', 'Munkres.__convert_path', 'munkres.make_cost_matrix']
 
